@@ -318,7 +318,10 @@ func systematicPatterns() []string {
 		}
 	}
 	for _, p := range []string{`^\p{Lu}`, `^\p{Ll}`, `^\p{Lu}$`, `\p{Lu}`, `^\p{Lt}`, `^\pL`, `^[\p{Lu}]`, `\A\p{Lu}`, `^\p{Ll}+`, `^\P{Lu}`, `^[[:upper:]]`,
-		`(`, `[`, `a{2,1}`, `\`, `(?P<n>foo)`, `(?P<n>a)|(b)`, `((a))`, `a(?:b)c`, `(?i)(a)`, `a**`, `\x{110000}`, "\xff", `\C`, `(?z)`, `a{1001}`,
+		`(`, `[`, `a{2,1}`, `\`, `(?P<n>foo)`, `(?P<n>a)|(b)`, `((a))`,
+		// named groups in the short spelling (Go >= 1.22), alone, mixed with the long one, nested, optional, inside every fast-path shape
+		`(?<n>foo)`, `(?<n>a)|(b)`, `a(?<x>b)?c`, `(?<o>(?<i>a))`, `(?P<a>x)(?<b>y)`, `^(?<n>foo)$`, `.*(?<n>foo).*`, `^(?<n>foo)`, `(?<n>foo)$`, `(?i)(?<n>k)`,
+		`(?<n>)`, `(?:(?<n>a)|b)*`, `\((?<n>a)`, `(?<`, `(?<n`, `(?<n>`, `(?<1n>a)`, `\(?<n>a)`, `[(?<n>a)]`, `\Q(?<n>a)\E`, `(?P<`, `\Q(?P<n>a)\E`, `[(?P<n>]a`, `a(?:b)c`, `(?i)(a)`, `a**`, `\x{110000}`, "\xff", `\C`, `(?z)`, `a{1001}`,
 		`fo{2}`, `fo{1,}`, `(?:.*)foo(?:.*)`, `.*(foo).*`, `^(?:foo)$`, `foo\z`, `\Afoo\z`, `^foo\z`, `\Afoo$`, `(?m)^foo$`, `(?m:^)foo(?m:$)`, `^^foo`, `foo$$`,
 		`\Qfoo\E`, `\Q.*foo.*\E`, `^\Qa.b\E$`, `[f]oo`, `[f][o][o]`, `f[o]o`, `[Ff]`, `^[Ff]`, `[Ff]$`, `^[Ff]$`, `.*[Kk].*`, `(?i)k`, `(?i)^k$`, `(?i)ſ`, `(?i)σ`, `(?i)ǆ`,
 		`\x{FFFD}`, `^\x{FFFD}`, `\x{FFFD}$`, `^\x{FFFD}$`, `.*\x{FFFD}.*`, `\x{D800}`, `^\x{DFFF}`, `\x{D7FF}`, `\x{E000}`, `\x{10FFFF}`, `^\x{10FFFF}$`, "�", "a�b",
@@ -347,7 +350,7 @@ func randomPattern(rng *rand.Rand, depth int) string {
 	case 5:
 		return []string{"(?i)", "(?s)", "(?m)", "(?U)", "(?i:", "(?s:", "(?m:"}[rng.Intn(7)] + randomPattern(rng, depth-1) + func() string { return "" }()
 	case 6:
-		return "(?P<g" + strconv.Itoa(rng.Intn(3)) + ">" + randomPattern(rng, depth-1) + ")"
+		return []string{"(?P<g", "(?<g"}[rng.Intn(2)] + strconv.Itoa(rng.Intn(3)) + ">" + randomPattern(rng, depth-1) + ")"
 	case 7:
 		return "(?i:" + randomPattern(rng, depth-1) + ")"
 	default:
